@@ -40,7 +40,9 @@ class ProgressBarBase:
         self._best_since_iter = nth_iter
 
     def _new2best(self, score_new, pos_new, nth_iter):
-        if score_new > self.score_best:
+        if score_new > self.score_best or (
+            self.pos_best is None and score_new == self.score_best
+        ):
             self.score_best = score_new
             self.pos_best = pos_new
 
